@@ -144,3 +144,27 @@ def relabel_random(rng: random.Random, a: np.ndarray, lo: int = 1, hi: int = 40)
 
 THRESHOLDS = [(0, 1), (1, 4), (1, 3), (1, 2), (2, 3), (1, 1)]
 ASSD_THRESHOLDS = [(0, 1), (1, 2), (1, 1), (2, 1), (5, 1)]
+
+
+def far_block_pair(rng: random.Random, joint: bool, max_vox: int = 20):
+    """A random pair plus one *isolated* overlapping instance pair: a block of full slabs that is
+    more than the crop padding (2 voxels) away from every other foreground voxel.  Returns
+    (pred, ref, p_new, r_new): the block carries label p_new in pred and r_new in ref (equal when
+    `joint`).  Used with label values whose sum wraps around in the array dtype."""
+    pred, ref = rand_unmatched_pair(rng, max_vox=max_vox, dims=(1, 2, 3))
+    shape = pred.shape
+    gap, blk = rng.randint(3, 4), rng.randint(1, 2)
+    if joint:
+        p_new = r_new = int(max(pred.max(), ref.max())) + 1
+    else:
+        p_new, r_new = int(pred.max()) + 1, int(ref.max()) + 1
+    bp = np.zeros((gap + blk,) + shape[1:], dtype=np.int64)
+    br = bp.copy()
+    bp[gap:] = p_new
+    br[gap:] = r_new
+    if rng.random() < 0.25 and bp[gap:].size > 1:
+        flat = bp[gap:].reshape(-1)
+        flat[rng.randrange(flat.size)] = 0         # a partial overlap: one reference-only voxel
+    if rng.random() < 0.5:
+        return np.concatenate([pred, bp]), np.concatenate([ref, br]), p_new, r_new
+    return np.concatenate([bp[::-1], pred]), np.concatenate([br[::-1], ref]), p_new, r_new
